@@ -102,17 +102,21 @@ func (p *Plenc) CodecForTypeWithTag(typ reflect.Type, tag string) (plenccodec.Co
 // reaching a struct. Only a struct can be built in two steps, so building a
 // codec for such a type would recurse forever
 func refersToItself(registry plenccodec.CodecRegistry, typ reflect.Type) bool {
+	typ0 := typ
 	seen := map[reflect.Type]struct{}{}
 	for k := typ.Kind(); k == reflect.Ptr || k == reflect.Slice; k = typ.Kind() {
 		if _, ok := seen[typ]; ok {
+			// A cycle - unless one of the types on it has a registered
+			// codec, which is not built from its elements
+			for t := range seen {
+				if t != typ0 && registry.Load(t, "") != nil {
+					return false
+				}
+			}
 			return true
 		}
 		seen[typ] = struct{}{}
 		typ = typ.Elem()
-		if registry.Load(typ, "") != nil {
-			// A type with a registered codec is not built from its elements
-			return false
-		}
 	}
 	return false
 }
